@@ -95,11 +95,13 @@ def extract(repo: Path) -> tuple[str, list, dict]:
     # ---- rewrites -------------------------------------------------------------------
     body = _sub(body, r"^    input: &'a str,", "    pub input: &'a [u8],", 1, log, "field type: input &str -> &[u8] (Verus cannot reason about str bytes; UTF-8 shape becomes an explicit spec predicate)")
     body = _sub(body, r"fn new\(input: &'a str\)", "fn new(input: &'a [u8])", 1, log, "constructor parameter type follows the field")
-    body = _sub(body, r"\.input\s*\.as_bytes\(\)", ".input", 3, log, "self.input.as_bytes() -> self.input", flags=re.M | re.S)
+    # uniform, meaning-preserving textual rewrites accept any number of sites (a change that adds one more
+    # `self.input.as_bytes()` must not make the unit undecidable); structural desugarings keep exact counts
+    body = _sub(body, r"\.input\s*\.as_bytes\(\)", ".input", (1, 40), log, "self.input.as_bytes() -> self.input", flags=re.M | re.S)
     body = _sub(body, r"^    (pos|after_backslash|after_number_or_float|in_path): ", r"    pub \1: ", 4, log, "struct fields made pub (contracts mention them)")
     body = _sub(body, r"pub\(crate\) ", "pub ", (3, 6), log, "visibility pub(crate) -> pub")
     body = _sub(body, r"^enum ExpectingPath", "pub enum ExpectingPath", 1, log, "visibility: ExpectingPath pub (it is the type of a pub field)")
-    body = _sub(body, r'b"xX"\.contains', "[b'x', b'X'].contains", 2, log, "byte-string literal b\"xX\" -> the equal array literal [b'x', b'X'] (Verus treats byte-string literals as opaque constants)")
+    body = _sub(body, r'b"xX"\.contains', "[b'x', b'X'].contains", (0, 10), log, "byte-string literal b\"xX\" -> the equal array literal [b'x', b'X'] (Verus treats byte-string literals as opaque constants)")
     # or-pattern with guard -> one arm per alternative
     def split_or(m):
         indent, pats, guard, rhs = m.group(1), m.group(2), m.group(3), m.group(4)
